@@ -456,7 +456,18 @@ impl PosWalk {
         };
         let start_fen = match &walk.start {
             Start::Curated(i) => CURATED[*i as usize % CURATED.len()].to_string(),
-            _ => r.start.fen6(),
+            _ => {
+                // one start in three carries other counter fields than "0 1": halfmove clock up to 150, move number up to 6000
+                let f = fp_pos(&r.start);
+                if f % 3 == 0 {
+                    let hm = if r.start.ep.is_some() { 0 } else { (f >> 8) % 151 };
+                    let fm = (1 + (f >> 20) % 6000).max(hm / 2 + 1);
+                    ev.class("start_with_other_counter_fields_than_0_1");
+                    format!("{} {} {}", r.start.fen4(), hm, fm)
+                } else {
+                    r.start.fen6()
+                }
+            }
         };
         match &walk.start {
             Start::Curated(_) => ev.class("start_curated"),
@@ -741,6 +752,125 @@ impl PosWalk {
     }
 }
 
+/// En-passant laboratory: a black pawn has just made its double step to the fifth rank of file f; one or both
+/// neighbouring files hold a white pawn that may capture it; the white king stands anywhere within two squares of
+/// the three pawns; one black rook, bishop or queen stands anywhere (pins along the rank, the file and the diagonals,
+/// checks by the pushed pawn itself, by the slider, discovered attacks); the black king keeps out of the way. Every
+/// sane placement, and its colour mirror. `step` thins the slider squares (1 = all).
+pub fn ep_lab_positions(step: usize, mut f: impl FnMut(u64, &Pos)) {
+    let mut i = 0u64;
+    for file in 0..8usize {
+        for capt in 1..=3u8 {
+            let left = capt & 1 != 0 && file > 0;
+            let right = capt & 2 != 0 && file < 7;
+            if !left && !right {
+                continue;
+            }
+            if (capt & 1 != 0 && file == 0) || (capt & 2 != 0 && file == 7) {
+                continue;
+            }
+            let mut base = [b'.'; 64];
+            base[32 + file] = b'p';
+            if left {
+                base[32 + file - 1] = b'P';
+            }
+            if right {
+                base[32 + file + 1] = b'P';
+            }
+            for wk in 8..56usize {
+                if base[wk] != b'.' || wk == 40 + file || wk == 48 + file {
+                    continue;
+                }
+                let (kr, kf) = ((wk / 8) as i32, (wk % 8) as i32);
+                if (kr - 4).abs() > 2 || (kf - file as i32).abs() > 3 {
+                    continue;
+                }
+                for bk in [63usize, 56, 7, 0] {
+                    if base[bk] != b'.' || bk == wk || ((bk / 8) as i32 - kr).abs().max(((bk % 8) as i32 - kf).abs()) <= 1 {
+                        continue;
+                    }
+                    for sl in (0..64usize).step_by(step) {
+                        if base[sl] != b'.' || sl == wk || sl == bk || sl == 40 + file || sl == 48 + file {
+                            continue;
+                        }
+                        for piece in [b'r', b'b', b'q'] {
+                            let mut b = base;
+                            b[wk] = b'K';
+                            b[bk] = b'k';
+                            b[sl] = piece;
+                            let p = Pos { b, white: true, cr: [false; 4], ep: Some(file as u8) };
+                            if !p.sane() {
+                                continue;
+                            }
+                            f(i, &p);
+                            i += 1;
+                            f(i, &p.mirror());
+                            i += 1;
+                        }
+                    }
+                    break;
+                }
+            }
+        }
+    }
+}
+
+/// Castling laboratory: white king and rook(s) at home with the right(s), at most one own knight somewhere on the
+/// first rank between them, one or two black men (queen, rook, bishop, knight, pawn) anywhere: every geometry in
+/// which a square the king starts on, crosses or reaches - or only the rook's path - is attacked or blocked.
+/// Every sane placement and its colour mirror.
+pub fn castling_lab_positions(two_attackers: bool, mut f: impl FnMut(u64, &Pos)) {
+    let mut i = 0u64;
+    for rights in 1..=3u8 {
+        for blocker in [99usize, 1, 2, 3, 5, 6] {
+            let mut base = [b'.'; 64];
+            base[4] = b'K';
+            let mut cr = [false; 4];
+            if rights & 1 != 0 {
+                base[7] = b'R';
+                cr[0] = true;
+            }
+            if rights & 2 != 0 {
+                base[0] = b'R';
+                cr[1] = true;
+            }
+            if blocker < 64 {
+                base[blocker] = b'N';
+            }
+            for bk in [62usize, 57] {
+                base[bk] = b'k';
+                for a1 in 8..64usize {
+                    if base[a1] != b'.' {
+                        continue;
+                    }
+                    for pc1 in [b'q', b'r', b'b', b'n', b'p'] {
+                        if pc1 == b'p' && a1 / 8 == 7 {
+                            continue;
+                        }
+                        let seconds: Vec<(usize, u8)> = if two_attackers { (8..32usize).filter(|&q| q != a1 && base[q] == b'.').flat_map(|q| [(q, b'n'), (q, b'b')]).collect() } else { vec![(99, b'.')] };
+                        for (a2, pc2) in seconds {
+                            let mut b = base;
+                            b[a1] = pc1;
+                            if a2 < 64 {
+                                b[a2] = pc2;
+                            }
+                            let p = Pos { b, white: true, cr, ep: None };
+                            if !p.sane() {
+                                continue;
+                            }
+                            f(i, &p);
+                            i += 1;
+                            f(i, &p.mirror());
+                            i += 1;
+                        }
+                    }
+                }
+                base[bk] = b'.';
+            }
+        }
+    }
+}
+
 /// All sane placements of K + X vs K for the given extra man, both sides to move
 pub fn kxk_positions(x: u8, mut f: impl FnMut(u64, &Pos)) {
     let mut i = 0u64;
@@ -777,7 +907,7 @@ impl Prop for PosWalk {
     }
 
     fn rule(&self) -> String {
-        let common = "Cases: proptest-generated walks (start = curated sane FEN or constructed random sane position with 2-32 men, castling rights and en-passant file FIDE-style or capturable; moves = picks with kind preferences capture/promotion/castle/ep/king/rook-home/double-push/check/undo resolved against the reference model's legal list; lengths 0-397) with the oracle evaluated at every position of the walk and at every legal successor of the final position (depth 1-2); about 1 walk in 250 is also observed through the real executable (C01: `rustybait perft 2 <fen> <moves>` divide against the model's divide; C02/C04/C11: `position fen … moves …` + `show` lines); thorough adds the exhaustive K+X v K tables. evaluations = positions compared. ";
+        let common = "Cases: proptest-generated walks (start = curated sane FEN or constructed random sane position with 2-32 men, castling rights and en-passant file FIDE-style or capturable; moves = picks with kind preferences capture/promotion/castle/ep/king/rook-home/double-push/check/undo resolved against the reference model's legal list; lengths 0-397) with the oracle evaluated at every position of the walk and at every legal successor of the final position (depth 1-2); about 1 walk in 250 is also observed through the real executable (C01: `rustybait perft 2 <fen> <moves>` divide against the model's divide; C02/C04/C11: `position fen … moves …` + `show` lines); at every position of a walk the successors that combine two rare features are judged as well (any capture of a home rook whose castling right is intact; every special move, king move and capture while an en-passant file is set); one constructed start in three carries other FEN counter fields than `0 1` (halfmove clock to 150, move number to 6000); every tier enumerates the en-passant laboratory (a pawn that has just made its double step, one or two capturers beside it, the capturing side's king anywhere within two squares of the three pawns, one enemy rook, bishop or queen anywhere - every sane placement, both colours) and the castling laboratory (king and rook(s) at home with the right(s), at most one own knight between them, one enemy queen, rook, bishop, knight or pawn anywhere - in the thorough tier a second enemy minor piece on ranks 2-4 -, both colours), each position with all its successors; thorough adds the exhaustive K+X v K tables. evaluations = positions compared. ";
         let nt = match self.which {
             Which::C01 => "Non-trivial position: in check, double check, has pseudo-legal moves that expose the own king (pins), en-passant capture legal, a castling right present, pawn one step from promotion, or at most 4 men; distinct by (placement, side, rights, ep).",
             Which::C02 => "Non-trivial case: a (position, move) pair where the move is castling, en passant, a promotion, moves from or captures on a rook home square, or records an en-passant file; distinct by position and move.",
@@ -863,6 +993,46 @@ impl Prop for PosWalk {
                         return;
                     }
                 }
+            }
+        }
+        // the en-passant laboratory (all four properties: move lists, successors, hashes, exported text)
+        {
+            let mut failed: Option<(PosCase, Fail)> = None;
+            let mut n = 0u64;
+            ep_lab_positions(1, |i, p| {
+                if failed.is_some() || !ctx.owns(i) {
+                    return;
+                }
+                n += 1;
+                let fen = p.fen6();
+                if let Err(fail) = self.run_fen(&fen, ev) {
+                    failed = Some((PosCase::Fen { fen }, fail));
+                }
+            });
+            ev.class_n("en_passant_laboratory_positions", n);
+            if let Some((c, f)) = failed {
+                report(c, f);
+                return;
+            }
+        }
+        // the castling laboratory
+        {
+            let mut failed: Option<(PosCase, Fail)> = None;
+            let mut n = 0u64;
+            castling_lab_positions(ctx.tier == Tier::Thorough, |i, p| {
+                if failed.is_some() || !ctx.owns(i) {
+                    return;
+                }
+                n += 1;
+                let fen = p.fen6();
+                if let Err(fail) = self.run_fen(&fen, ev) {
+                    failed = Some((PosCase::Fen { fen }, fail));
+                }
+            });
+            ev.class_n("castling_laboratory_positions", n);
+            if let Some((c, f)) = failed {
+                report(c, f);
+                return;
             }
         }
         // exhaustive small endgames
